@@ -16,7 +16,6 @@ import (
 	"bytes"
 	"context"
 	"fmt"
-	"net"
 	"os"
 	"sync"
 	"time"
@@ -37,44 +36,6 @@ func init() {
 	lab.Register("c07-xproto", c07XProto)
 	lab.Register("c07-match", c07Match)
 }
-
-// fakeConn is the minimal api.Connection the stream layer needs: it records writes and closes.
-type fakeConn struct {
-	types.ClientConnection
-	mu     sync.Mutex
-	writes [][]byte
-	closed int
-	lis    []api.ConnectionEventListener
-}
-
-func (f *fakeConn) ID() uint64           { return 7 }
-func (f *fakeConn) LocalAddr() net.Addr  { return &net.TCPAddr{IP: net.IPv4(127, 0, 0, 1), Port: 1} }
-func (f *fakeConn) RemoteAddr() net.Addr { return &net.TCPAddr{IP: net.IPv4(127, 0, 0, 1), Port: 2} }
-func (f *fakeConn) Write(bufs ...buffer.IoBuffer) error {
-	f.mu.Lock()
-	for _, b := range bufs {
-		if b != nil {
-			f.writes = append(f.writes, append([]byte(nil), b.Bytes()...))
-		}
-	}
-	f.mu.Unlock()
-	return nil
-}
-func (f *fakeConn) Close(ccType api.ConnectionCloseType, eventType api.ConnectionEvent) error {
-	f.mu.Lock()
-	f.closed++
-	f.mu.Unlock()
-	return nil
-}
-func (f *fakeConn) SetTransferEventListener(func() bool) {}
-func (f *fakeConn) AddConnectionEventListener(l api.ConnectionEventListener) {
-	f.lis = append(f.lis, l)
-}
-func (f *fakeConn) AddBytesReadListener(listener func(bytesRead uint64)) {}
-func (f *fakeConn) AddBytesSentListener(listener func(bytesSent uint64)) {}
-func (f *fakeConn) SetReadDisable(disable bool)                          {}
-func (f *fakeConn) OnConnectionEvent(event api.ConnectionEvent)          {}
-func (f *fakeConn) nWrites() int                                         { f.mu.Lock(); defer f.mu.Unlock(); return len(f.writes) }
 
 type c07Event struct {
 	ID   uint64
